@@ -197,6 +197,9 @@ func ValidateRepoAndLogStream(repoName, streamName string) error {
 }
 
 func (h *Handler) serveCreateRepository(w http.ResponseWriter, r *http.Request, user meta2.User) {
+	if !h.requireAdmin(w, user, "create repository") {
+		return
+	}
 	repository := mux.Vars(r)[Repository]
 	if err := ValidateRepository(repository); err != nil {
 		logger.GetLogger().Error("serveCreateRepository", zap.Error(err))
@@ -245,6 +248,9 @@ func (h *Handler) serveCreateRepository(w http.ResponseWriter, r *http.Request, 
 }
 
 func (h *Handler) serveDeleteRepository(w http.ResponseWriter, r *http.Request, user meta2.User) {
+	if !h.requireAdmin(w, user, "delete repository") {
+		return
+	}
 	repository := mux.Vars(r)[Repository]
 	if err := ValidateRepository(repository); err != nil {
 		logger.GetLogger().Error("serveDeleteRepository", zap.Error(err))
@@ -321,6 +327,9 @@ func (h *Handler) serveShowRepository(w http.ResponseWriter, r *http.Request, us
 }
 
 func (h *Handler) serveUpdateRepository(w http.ResponseWriter, r *http.Request, user meta2.User) {
+	if !h.requireAdmin(w, user, "update repository") {
+		return
+	}
 	repository := mux.Vars(r)[Repository]
 	if err := ValidateRepository(repository); err != nil {
 		logger.GetLogger().Error("serveUpdateRepository", zap.Error(err))
@@ -349,6 +358,9 @@ func (h *Handler) getDefaultSchemaForLog(opt *meta2.Options) (*meta2.ColStoreInf
 }
 
 func (h *Handler) serveCreateLogstream(w http.ResponseWriter, r *http.Request, user meta2.User) {
+	if !h.requireAdmin(w, user, "create logstream") {
+		return
+	}
 	repository := mux.Vars(r)[Repository]
 	logStream := mux.Vars(r)[LogStream]
 	if err := ValidateRepoAndLogStream(repository, logStream); err != nil {
@@ -394,6 +406,9 @@ func (h *Handler) serveCreateLogstream(w http.ResponseWriter, r *http.Request, u
 }
 
 func (h *Handler) serveDeleteLogstream(w http.ResponseWriter, r *http.Request, user meta2.User) {
+	if !h.requireAdmin(w, user, "delete logstream") {
+		return
+	}
 	logStream := mux.Vars(r)[LogStream]
 	repository := mux.Vars(r)[Repository]
 	if err := ValidateRepoAndLogStream(repository, logStream); err != nil {
@@ -488,6 +503,9 @@ func (h *Handler) serveShowLogstream(w http.ResponseWriter, r *http.Request, use
 }
 
 func (h *Handler) serveUpdateLogstream(w http.ResponseWriter, r *http.Request, user meta2.User) {
+	if !h.requireAdmin(w, user, "update logstream") {
+		return
+	}
 	logStream := mux.Vars(r)[LogStream]
 	repository := mux.Vars(r)[Repository]
 	if err := ValidateRepoAndLogStream(repository, logStream); err != nil {
